@@ -92,7 +92,10 @@ def diff_streams(rep, prop, cfg, tier, seed, binary, workdir, kf):
                 continue
             nfail += 1
             rec = {'stream': label, 'op': o, 'impl': i, 'expected': m}
-            (oracle_fail if kind in oracle_ops else corr_fail).append(rec)
+            # `self_evident`: the implementation's answer alone demonstrates the violation (e.g. the harness's own
+            # transparency verdict, a panic where the property says "never panics"): a concrete failing input
+            se = cfg.get('self_evident')
+            (oracle_fail if kind in oracle_ops or (se and se(o, i)) else corr_fail).append(rec)
         rep.oblige(f'correspondence:{label}', 'correspondence', nfail == 0, f'{len(ops)} operations, {nfail} disagreement(s)')
         if cfg.get('race'):
             import glob
